@@ -56,6 +56,10 @@ std::pair<bool, int> TetrisLegalizer::attemptPlacement(int cell, int y) const {
 }
 
 void TetrisLegalizer::placeCell(int cell) {
+  if (nbRows() == 0) {
+    // No space left at all: the cell stays unplaced
+    return;
+  }
   int targetX = cellTargetX_[cell];
   int targetY = cellTargetY_[cell];
   int bestX = 0;
